@@ -41,6 +41,7 @@ inductive Res where
   | integrity          -- exc.IntegrityError (duplicate key), not a disconnect
   | operational        -- exc.OperationalError (unknown savepoint / injected), not a disconnect
   | disconnect         -- exc.DBAPIError with connection_invalidated = True
+  | interrupted        -- a BaseException (KeyboardInterrupt) raised by the DBAPI passes through
 deriving DecidableEq, Repr, Inhabited
 
 inductive Stmt where
@@ -58,6 +59,7 @@ deriving DecidableEq, Repr, Inhabited
     `disc`: one it does (the raw connection is dead afterwards) -/
 inductive FKind where
   | err | disc
+  | kbi      -- a BaseException that is not an Exception (KeyboardInterrupt, CancelledError)
 deriving DecidableEq, Repr, Inhabited
 
 /-- pool reset_on_return -/
@@ -184,7 +186,9 @@ def DB.poolInvalidate (db : DB) : DB :=
 /-- `_ConnectionFairy._reset` followed by `_ConnectionRecord.checkin` → `_return_conn`.
     `transactionWasReset`: Connection.close() passed `transaction_reset=True`.
     A fault during the reset invalidates the record (`_finalize_fairy`'s except clause):
-    the raw connection is closed, nothing is raised. -/
+    the raw connection is closed and the empty record is checked in; nothing is raised —
+    unless the fault is a BaseException that is not an Exception: then (fix 49615f9) the
+    empty record is checked in as well and the exception is re-raised (`resetInterrupted`). -/
 def DB.checkin (db : DB) (transactionWasReset : Bool) : DB :=
   let (db, bad) : DB × Bool :=
     match db.reset with
@@ -210,6 +214,13 @@ def DB.checkin (db : DB) (transactionWasReset : Bool) : DB :=
                            follows := decide (db.raw.working = db.committed) && db.raw.saves.isEmpty }
     { db with raw := r, idle := db.idle ++ [some r] }
 
+/-- the reset-on-return of `checkin` is interrupted by a BaseException -/
+def DB.resetInterrupted (db : DB) (transactionWasReset : Bool) : Bool :=
+  match db.reset with
+  | .rollback => !transactionWasReset && (db.takeFault .rollback).1 == some .kbi
+  | .commit => (db.takeFault .commit).1 == some .kbi
+  | .none => false
+
 /-! ## Connection and transaction objects -/
 
 structure Txn where
@@ -231,6 +242,8 @@ structure Conn where
   canReconnect : Bool
   warns : Nat
   db : DB
+  zombie : Bool := false   -- close() was interrupted during reset-on-return: the Connection still
+                           -- references a fairy whose record is invalidated and not checked in
 deriving DecidableEq, Repr, Inhabited
 
 def DB.init (reset : ResetStyle) (listener : Listener := .none) (engineOpts : List Bool := []) : DB :=
@@ -385,12 +398,19 @@ def Conn.discError (c : Conn) : Conn × Res :=
     (if c.invalidated then c else { c with hasDbapi := false, db := c.db.kill }, .disconnect)
   else (c.onDisconnect, .disconnect)
 
+/-- `_handle_dbapi_exception` for an exit exception (`util.is_exit_exception`): treated as a
+    disconnect of THIS connection only (`invalidate_pool_on_disconnect = False`), never
+    wrapped, re-raised as is -/
+def Conn.kbiError (c : Conn) : Conn × Res :=
+  (if c.invalidated then c else { c with hasDbapi := false, db := c.db.kill }, .interrupted)
+
 def Conn.dbapiError (c : Conn) (k : FKind) : Conn × Res :=
-  if c.db.listener == .forceDisc then c.discError
+  if k == .kbi then c.kbiError
+  else if c.db.listener == .forceDisc then c.discError
   else
     match k with
     | .disc => c.discError
-    | .err => c.plainError
+    | _ => c.plainError
 
 /-- a DBAPI call at fault point `p`: fails as armed, else `f` is applied to the database -/
 def Conn.dbapiCall (c : Conn) (p : FPoint) (f : DB → DB) : Conn × Res :=
@@ -548,6 +568,13 @@ def Conn.release (c : Conn) (skipReset : Bool) : Conn :=
   let c := if c.hasDbapi then { c with db := c.db.checkin skipReset, hasDbapi := false } else c
   { c with canReconnect := false }
 
+/-- … or the BaseException raised by the DBAPI during reset-on-return comes out of
+    `conn.close()`: `self._dbapi_connection = None` is never reached -/
+def Conn.releaseOrInterrupt (c : Conn) (skipReset : Bool) : Conn × Res :=
+  if c.hasDbapi && c.db.resetInterrupted skipReset then
+    ({ c with db := c.db.checkin skipReset, zombie := true }, .interrupted)
+  else (c.release skipReset, .ok)
+
 /-- `Connection.close()` (with fix 387ee97: `skip_reset = self._transaction.is_active`,
     read before the transaction is closed); an exception from closing the transaction
     leaves close() before the connection is released -/
@@ -555,8 +582,8 @@ def Conn.close (c : Conn) : Conn × Res :=
   match c.transaction with
   | some t =>
     let skip := c.act t
-    andThen (c.tClose t) fun c => (c.release skip, .ok)
-  | none => (c.release false, .ok)
+    andThen (c.tClose t) fun c => c.releaseOrInterrupt skip
+  | none => c.releaseOrInterrupt false
 
 /-- `_transaction_is_closed()` is `not self._deactivated_from_connection`, i.e.
     "this object is still the connection's current (nested) transaction" -/
@@ -636,7 +663,8 @@ def DB.warm (n : Nat) (db : DB) : DB :=
 def Conn.gc (c : Conn) : Conn :=
   { txns := [], transaction := none, nested := none, spSeq := 0, ctxMgr := none,
     hasDbapi := false, canReconnect := false, warns := c.warns,
-    db := if c.hasDbapi then c.db.checkin false else c.db }
+    -- a zombie's record was already checked in (`fairy_ref is not ref`: the finalizer returns)
+    db := if c.zombie then c.db else if c.hasDbapi then c.db.checkin false else c.db }
 
 /-- `Connection.execution_options(isolation_level="AUTOCOMMIT")` →
     `_set_connection_characteristics` -/
